@@ -15,15 +15,19 @@ gen/dalvik + gen/dexgen): the structured tier-C programs of checks/c21.py (ifs, 
 quick catalogue, 729 methods) and a nested-loop family: every nesting of two loops over the kinds {while, do-while,
 while(true)+breaks, two back edges (continue), loop-and-a-half} x extra back edges from inside the inner loop to
 the OUTER header {none, from a conditional block, from a statement block, both} x break out of both loops {0,1}
-(200 methods).  Shipped code has hardly any outer header with several back edges leaving the inner interval, which
+(200 methods), and sparse/packed switches whose case keys jump to the block following the switch ("case 20:
+default:").  Shipped code has hardly any outer header with several back edges leaving the inner interval, which
 is where Interval.compute_end / the derived sequence depend on node order.  Generated methods get the global
 family, the hash seeds and EVERY transposition (tier-C in quick: one program per skeleton; its siblings differ only
 in the comparison operator).
 
 Parts (all deciding steps are complete enumerations of the stated spaces):
   G  every class of every corpus DEX: DvClass(...).process() under the default assignment h(k)=k and under every
-     member of the global FAMILY; class text and every method text must be byte-identical to the default run;
-     the default is run a second time at the end (repeat in the same process).
+     member of the global FAMILY; class text and every method text must be byte-identical to the default run.
+     Before the family, three histories on the SAME parsed objects (default assignment): a new DvClass on the same
+     Analysis (key repeat:..), process() called again on that same DvClass object (reprocess:..), a new DvMethod
+     per method on the same MethodAnalysis after its class was decompiled (class-then-method:..); a method whose
+     text is not stable under these is not judged under the family (its baseline is not a baseline).
   T  every method: baseline run records which objects are actually hashed; EVERY transposition (i j) of the
      default assignment restricted to those objects is run (deviation bound 1; bound 2 = every unordered pair of
      distinct transpositions for methods with <= T2_MAX hashed objects, thorough only).
@@ -347,6 +351,34 @@ def gen_programs():
                         _nested_body(ko, ki, ex, brk)(asm)
                         code, _ = asm.assemble()
                         out.append(("n_%s_%s_x%s_b%d" % (ko, ki, ex, brk), "nested", "II", "I", 8, 2, code))
+        # switches with case keys that jump to the block FOLLOWING the switch instruction ("case 20: default:"):
+        # v0 result, v1 parameter
+        for kind in ("sparse", "packed"):
+            for ft in ((0,), (1,), (2,), (0, 2), (1, 2)):
+                s = D.Asm()
+                base, Lft, Lend, Lpay = D.Label(), D.Label(), D.Label(), D.Label()
+                Ls = [D.Label() for _ in range(3)]
+                s.label(base)
+                s.ins(kind + "-switch", 1, Lpay)
+                s.label(Lft)
+                s.ins("add-int/lit8", 0, 1, 1)
+                s.ins("goto", Lend)
+                for k in range(3):
+                    if k not in ft:
+                        s.label(Ls[k])
+                        s.ins("const/16", 0, 100 * (k + 1))
+                        s.ins("goto", Lend)
+                s.label(Lend)
+                s.ins("return", 0)
+                s.align4()
+                s.label(Lpay)
+                tg = [Lft if k in ft else Ls[k] for k in range(3)]
+                if kind == "sparse":
+                    s.sparse(base, [10, 20, 30], tg)
+                else:
+                    s.packed(base, 10, tg)
+                out.append(("cr_sw_%s_ft%s" % (kind, "".join(map(str, ft))), "switchft", "I", "I", 2, 1,
+                            s.assemble()[0]))
         assert len({x[0] for x in out}) == len(out)
         _GEN["p"] = out
     return _GEN["p"]
@@ -520,6 +552,27 @@ def run_method(dx, m, spec=None, rec=None):
         CTL.rec = None
 
 
+def rerun_class(dx, c):
+    """histories on the SAME parsed objects, default assignment (the class was decompiled before by the caller):
+    a new DvClass; process() once more on that same DvClass object; a new DvMethod per method on the same
+    MethodAnalysis.  -> [(phase, witness kind, class text | None, [method texts])]"""
+    from androguard.decompiler.decompile import DvClass, DvMethod
+
+    def texts(dc):
+        return dc.get_source(), [m.get_source() if isinstance(m, DvMethod) else "NOT-DECOMPILED" for m in dc.get_methods()]
+    CTL.fn = CTL.rec = None
+    try:
+        dc = DvClass(c, dx)
+        dc.process()
+        r1 = texts(dc)
+        dc.process()
+        r2 = texts(dc)
+    except Exception as e:      # noqa
+        r1 = r2 = (_exc_text(e), [])
+    mm = [run_method(dx, m) for m in c.get_methods()]
+    return [("repeat", "repeat") + r1, ("reprocess", "reprocess") + r2, ("class-then-method", "clsmeth", None, mm)]
+
+
 def diff_class(a, b):
     """coarse, stable class of a difference between two texts of the same method"""
     if a.startswith("EXC:") or b.startswith("EXC:") or "NOT-DECOMPILED" in (a, b):
@@ -616,6 +669,16 @@ def eval_witness(repo, w):
         if i is None:
             return {"a": ct0, "b": ct1, "mid": str(c.get_name())}
         return {"a": mt0[i], "b": mt1[i], "mid": mid(c, i, c.get_methods()[i])}
+    if kind in ("reprocess", "clsmeth"):
+        d, dx, _ = load(repo, w["dex"])
+        c = d.get_classes()[w["class"]]
+        ct0, mt0 = run_class(dx, c)
+        rr = rerun_class(dx, c)
+        _, _, ct1, mt1 = rr[1] if kind == "reprocess" else rr[2]
+        i = w.get("method")
+        if i is None:
+            return {"a": ct0, "b": ct1, "mid": str(c.get_name())}
+        return {"a": mt0[i], "b": mt1[i], "mid": mid(c, i, c.get_methods()[i])}
     if kind == "swap":
         d, dx, _ = load(repo, w["dex"])
         c = d.get_classes()[w["class"]]
@@ -647,10 +710,12 @@ def eval_witness(repo, w):
 def judge_fresh(repo, w):
     """One confirmation of a witness using fresh child process(es). -> None | (signature, message)"""
     kind = w["kind"]
-    if kind in ("assign", "repeat", "swap"):
+    if kind in ("assign", "repeat", "swap", "reprocess", "clsmeth"):
         r = _run_child(repo, {"op": "eval", "w": w})
         a, b = r["a"], r["b"]
-        how = "assignment %s" % (w.get("assign"),)
+        how = {"reprocess": "a second process() on the same DvClass object",
+               "clsmeth": "a new DvMethod on the same MethodAnalysis after its class was decompiled",
+               "repeat": "a second decompilation in the same process"}.get(kind, "assignment %s" % (w.get("assign"),))
     elif kind == "seed":
         w2 = dict(w, kind="classtext")
         ra = _run_child(repo, {"op": "eval", "w": w2}, seed="0")
@@ -894,7 +959,9 @@ def space(ctx):
                              "nested_loop_family": "%d = outer kind x inner kind %r x extra back edges to the outer header %r x break 0/1; all transpositions" % (len([x for x in gen_programs() if x[1] == "nested"]), NEST_KINDS, NEST_EXTRA)},
         "classes": sum(len(v) for v in sizes.values()),
         "methods": sum(sum(v) for v in sizes.values()),
-        "global_family": ["default"] + [a for a, _ in family(ctx.thorough)] + ["default(repeat)"],
+        "global_family": ["default"] + [a for a, _ in family(ctx.thorough)],
+        "same_object_histories_per_class": ["new DvClass on the same Analysis", "process() again on the same DvClass",
+                                            "new DvMethod per method on the same MethodAnalysis"],
         "transposition_bound": {"deviation_1_max_hashed_objects": T_MAX_THOROUGH if ctx.thorough else T_MAX_QUICK,
                                 "deviation_2_max_hashed_objects": T2_MAX if ctx.thorough else 0},
         "hashseeds": [0] + seeds(ctx),
@@ -1011,33 +1078,50 @@ def _run_G(ctx, acc, cands, name, lo, hi):
         for i, t in enumerate(mt0):
             acc.state((name, ids[i], th(t)))
             acc.outcomes.add(h8(t))
-        for aname, _ in fam + [("default", None)]:
-            ct, mt = run_class(dx, c, aname)
-            acc.transitions += len(meths)
-            acc.traces += 1
+        HOW = {"repeat": "a second run (new DvClass, same Analysis) in the same process",
+               "reprocess": "process() called a second time on the same DvClass object",
+               "class-then-method": "a new DvMethod on the same MethodAnalysis after the class was decompiled"}
+        unstable, cls_unstable = set(), False
+        passes = [(ph, kd, "default", ct, mt) for ph, kd, ct, mt in rerun_class(dx, c)]
+        acc.transitions += 3 * len(meths)
+        acc.traces += 3
+        acc.count("same_object_histories", 3 * len(meths))
+        for aname, _ in fam:
+            passes.append(("idhash", "assign", aname, None, None))
+        for phase, wkind, aname, ct, mt in passes:
+            if phase == "idhash":
+                ct, mt = run_class(dx, c, aname)
+                acc.transitions += len(meths)
+                acc.traces += 1
+                acc.count("assignments_per_method", len(meths))
             acc.n += len(meths) + 1
-            acc.count("assignments_per_method", len(meths))
             if len(rec) >= 2:
                 acc.nt_disjoint += len(meths)
-            how = "identity-hash assignment '%s'" % aname if aname != "default" else "a second run in the same process"
-            phase = "idhash" if aname != "default" else "repeat"
+            how = "identity-hash assignment '%s'" % aname if phase == "idhash" else HOW[phase]
             bad = False
             for i, t in enumerate(mt):
+                if phase == "idhash" and i in unstable:
+                    continue                      # the baseline of this method is not even stable under repetition
                 if i >= len(mt0) or t != mt0[i]:
                     bad = True
+                    if phase != "idhash":
+                        unstable.add(i)
                     acc.state((name, ids[i], th(t)))
-                    _viol(acc, cands, phase, name, {"kind": "assign" if aname != "default" else "repeat", "dex": name,
-                                                    "class": ci, "method": i, "assign": aname},
+                    _viol(acc, cands, phase, name, {"kind": wkind, "dex": name, "class": ci, "method": i,
+                                                    "assign": aname},
                           mt0[i] if i < len(mt0) else "", t, ids[i], how)
-            if ct != ct0:
+            if ct is not None and ct != ct0 and not (phase == "idhash" and (cls_unstable or unstable)):
                 acc.state((name, "class", str(c.get_name()), th(ct)))
+                if phase != "idhash":
+                    cls_unstable = True
                 if not bad:
                     _viol(acc, cands, phase + "-classlevel", name,
-                          {"kind": "assign" if aname != "default" else "repeat", "dex": name, "class": ci,
-                           "method": None, "assign": aname}, ct0, ct, str(c.get_name()), how)
+                          {"kind": wkind, "dex": name, "class": ci, "method": None, "assign": aname},
+                          ct0, ct, str(c.get_name()), how)
         if ci == lo == 0 and name == "classes.dex":
             acc.sample({"part": "G", "dex": name, "class": str(c.get_name()), "methods": len(meths),
-                        "assignments": ["default"] + [a for a, _ in fam] + ["default"],
+                        "assignments": ["default", "default(new DvClass)", "default(same DvClass again)",
+                                        "default(new DvMethod each)"] + [a for a, _ in fam],
                         "hashed_objects_in_class": len(rec)})
 
 
@@ -1090,6 +1174,12 @@ def _run_T(ctx, acc, cands, name, lo, hi):
                 acc.traces += 1
                 if t != t0:
                     acc.state((name, ident, th(t)))
+                    if run_method(dx, m) != t0:
+                        # not the assignment: the default run itself no longer gives the first text (history)
+                        _viol(acc, cands, "repeat", name, {"kind": "swap", "dex": name, "class": ci, "method": mi,
+                                                           "assign": ["swap", 0, 0]}, t0, t, ident,
+                              "repeated decompilation of the method (new DvMethod, same MethodAnalysis)")
+                        break
                     _viol(acc, cands, "idhash", name, {"kind": "swap", "dex": name, "class": ci, "method": mi,
                                                        "assign": spec}, t0, t, ident,
                           "transposition of identity hashes of objects %s (of %d hashed)" % (spec[1:], n))
@@ -1103,7 +1193,8 @@ def _run_S(ctx, acc, cands, part, sds):
     # in-process reference: PYTHONHASHSEED=0 is pinned by run_check.py (otherwise the parent is just one more seed)
     if os.environ.get("PYTHONHASHSEED") != "0":
         acc.note("parent process did not run with PYTHONHASHSEED=0")
-    base = [child_slice(ctx.repo, name, lo, hi) for name, lo, hi in part]
+    # reference from a fresh child too (this worker may have decompiled these methods before: history is H's job)
+    base = _run_child(ctx.repo, {"op": "slices", "items": part}, seed="0")
     nm = sum(len(x) for bs in base for x in bs["m"])
     acc.transitions += nm
     acc.traces += 1
@@ -1119,7 +1210,7 @@ def _run_S(ctx, acc, cands, part, sds):
             if not bad:
                 continue
             classes = load(ctx.repo, name)[0].get_classes()
-            tb = child_slice(ctx.repo, name, None, None, True, bad)
+            tb = _run_child(ctx.repo, {"op": "slice", "dex": name, "texts": True, "only": bad}, seed="0")
             tg = _run_child(ctx.repo, {"op": "slice", "dex": name, "texts": True, "only": bad}, seed=str(s))
             for x, ci in enumerate(bad):
                 c = classes[ci]
@@ -1265,6 +1356,8 @@ def finalize(ctx, acc):
         acc.harness_error("degenerate: only %d methods hash >= 2 owned objects" % e.get("methods_with_hashed_objects", 0))
     if e.get("transpositions", 0) < 1000 or e.get("hashseed_runs", 0) < 7 or e.get("history_pairs_adjacent_in_chain", 0) < 2500 or e.get("history_pairs_exact", 0) < 400 or e.get("history_extreme_size_exact", 0) < 40:
         acc.harness_error("degenerate space: %r" % (e,))
+    if e.get("same_object_histories", 0) < 3 * e.get("methods", 0):
+        acc.harness_error("same-object histories (repeat / reprocess / class-then-method) not run for every method")
     if e.get("generated_methods", 0) != len(gen_programs()):
         acc.harness_error("generated corpus not (fully) explored: %r of %d" % (e.get("generated_methods"), len(gen_programs())))
     if len(acc.states) < e.get("methods", 0) // 2:
